@@ -20,6 +20,7 @@ result fails and the translator FAILS CLOSED -- TranslateError carries the line)
   cdef:  <indented decl block>           -> one assignment per declared name
   cdef enum E: A = 0, B, C               -> class E: A = 0; B = 1; C = 2
   cdef class C(B):                       -> class C(B):
+  property NAME: def __get__(self): ...  -> @property def NAME(self): ...
   cdef|cpdef [inline] [type] f(sig):     -> def f(sig):        (sig may span lines)
   C-typed parameters  `uint64_t seq`, `bint x=False`, `bytes b`  -> names only
   <type>expr  casts                      -> expr
@@ -47,6 +48,7 @@ _NAME = r'[A-Za-z_]\w*'
 _RE_FUNC = re.compile(
     rf'^(?P<ind>\s*)(?:cdef|cpdef)\s+(?:inline\s+)?(?:(?P<ret>{_TYPE})\s+)?(?P<name>{_NAME})\s*\((?P<rest>.*)$')
 _RE_PYDEF = re.compile(rf'^(?P<ind>\s*)(?P<kw>async\s+def|def)\s+(?P<name>{_NAME})\s*\((?P<rest>.*)$')
+_RE_PROPERTY = re.compile(rf'^(?P<ind>\s*)property\s+(?P<name>{_NAME})\s*:\s*$')
 _RE_CLASS = re.compile(rf'^(?P<ind>\s*)cdef\s+class\s+(?P<rest>.*)$')
 _RE_ENUM = re.compile(rf'^(?P<ind>\s*)cdef\s+enum\s+(?P<name>{_NAME})\s*:\s*$')
 _RE_BLOCK = re.compile(r'^(?P<ind>\s*)cdef\s*:\s*$')
@@ -197,6 +199,31 @@ def translate(src: str, filename: str = '<pyx>') -> str:
             out.append(f"{m.group('ind')}class {m.group('rest')}")
             i += 1
             continue
+        m = _RE_PROPERTY.match(ln)
+        if m:
+            # legacy Cython property block:  property NAME: / def __get__(self): BODY
+            ind = m.group('ind')
+            nm = m.group('name')
+            j = i + 1
+            while j < n and not lines[j].strip():
+                j += 1
+            g = re.match(rf'^(?P<ind2>\s+)def\s+__get__\s*\(\s*self\s*\)\s*:\s*$', lines[j] if j < n else '')
+            if not g or len(g.group('ind2')) <= len(ind):
+                raise TranslateError(f'{filename}:{i + 1}: property block without a plain __get__')
+            ind2 = g.group('ind2')
+            out.append(f'{ind}@property')
+            out.append(f'{ind}def {nm}(self):')
+            j += 1
+            shift = len(ind2) - len(ind)
+            while j < n and (not lines[j].strip() or
+                             len(lines[j]) - len(lines[j].lstrip()) > len(ind2)):
+                out.append(lines[j][shift:] if lines[j].strip() else '')
+                j += 1
+            # only __get__ is supported: anything else still inside the block fails closed
+            if j < n and lines[j].strip() and len(lines[j]) - len(lines[j].lstrip()) > len(ind):
+                raise TranslateError(f'{filename}:{j + 1}: unsupported member of property block: {lines[j].strip()!r}')
+            i = j
+            continue
         m = _RE_BLOCK.match(ln)
         if m:
             ind = m.group('ind')
@@ -280,3 +307,100 @@ if __name__ == '__main__':
     if len(sys.argv) > 2:
         open(sys.argv[2], 'w').write(res)
     print(f'ok: {len(src.splitlines())} lines -> {len(res.splitlines())} lines')
+
+
+# ------------------------------------------------------------------ .pxd companion
+_NUMERIC = {'int', 'long', 'short', 'char', 'float', 'double', 'uint64_t', 'int64_t', 'uint32_t',
+            'int32_t', 'uint16_t', 'int16_t', 'uint8_t', 'int8_t', 'ssize_t', 'size_t', 'Py_ssize_t'}
+
+
+def pxd_info(src: str, filename: str = '<pxd>'):
+    """Read a .pxd: returns (attr_defaults, enums) where
+    attr_defaults = {class name: {attribute: default value}}   (Cython zero-initialises C
+    attributes and None-initialises object attributes of extension types) and
+    enums = {enum name: {member: int}} for `cpdef enum` / `cdef enum` blocks with integer or
+    `1 << k` values.  Method declarations are skipped.  Unknown shapes fail closed."""
+    classes, enums = {}, {}
+    lines = src.split('\n')
+    i, n = 0, len(lines)
+    cur = None          # current class name
+    cur_ind = None
+
+    def indent(s):
+        return len(s) - len(s.lstrip())
+
+    def add_attr(cls, decl):
+        decl = decl.split('#')[0].strip()
+        if not decl or '(' in decl:
+            return                      # method declaration
+        decl = re.sub(r'^(public|readonly)\s+', '', decl)
+        m = re.match(rf'^(?P<type>{_TYPE}(?:\[[^\]]*\])?)\s+(?P<names>{_NAME}(?:\s*,\s*{_NAME})*)$', decl)
+        if not m:
+            raise TranslateError(f'{filename}: cannot read attribute declaration {decl!r}')
+        t = m.group('type').strip()
+        dv = False if t == 'bint' else 0 if t.replace('unsigned ', '') in _NUMERIC else None
+        for nm in m.group('names').split(','):
+            nm = nm.strip()
+            if nm != '__weakref__':
+                classes[cls][nm] = dv
+
+    while i < n:
+        ln = lines[i]
+        s = ln.strip()
+        if not s or s.startswith('#') or s.startswith('@'):
+            i += 1
+            continue
+        ind = indent(ln)
+        if cur is not None and ind <= cur_ind:
+            cur = None
+        m = re.match(rf'^(?:cdef|cpdef)\s+enum\s+({_NAME})\s*:', s)
+        if m and cur is None:
+            nm = m.group(1)
+            enums[nm] = {}
+            val = -1
+            i += 1
+            while i < n and (not lines[i].strip() or indent(lines[i]) > ind):
+                d = lines[i].split('#')[0].strip()
+                i += 1
+                if not d:
+                    continue
+                if '=' in d:
+                    k, _, v = d.partition('=')
+                    mm = re.fullmatch(r'\s*(\d+)\s*(?:<<\s*(\d+))?\s*', v)
+                    if not mm:
+                        raise TranslateError(f'{filename}: enum value {d!r}')
+                    val = int(mm.group(1)) << int(mm.group(2) or 0)
+                    enums[nm][k.strip()] = val
+                else:
+                    val += 1
+                    enums[nm][d] = val
+            continue
+        m = re.match(rf'^cdef\s+class\s+({_NAME})\b.*:$', s)
+        if m:
+            cur, cur_ind = m.group(1), ind
+            classes[cur] = {}
+            i += 1
+            continue
+        if cur is not None:
+            if s == 'cdef:':
+                bind = ind
+                i += 1
+                while i < n and (not lines[i].strip() or indent(lines[i]) > bind):
+                    add_attr(cur, lines[i])
+                    i += 1
+                continue
+            m = re.match(r'^(?:cdef|cpdef)\s+(.*)$', s)
+            if m:
+                # a method declaration may span several lines
+                if '(' in s and s.count('(') > s.count(')'):
+                    while i < n and lines[i].count(')') < 1:
+                        i += 1
+                    i += 1
+                    continue
+                add_attr(cur, m.group(1).replace('inline ', ''))
+                i += 1
+                continue
+            i += 1
+            continue
+        i += 1
+    return classes, enums
